@@ -8,6 +8,7 @@ import (
 	"go/token"
 	"go/types"
 	"os"
+	"sort"
 	"strings"
 
 	"golang.org/x/tools/go/ssa"
@@ -427,7 +428,48 @@ func (g *FuncGen) appendBuiltin(cc *ssa.CallCommon, res ssa.Value, in ssa.Instru
 		g.unsup("append to %s", cc.Args[0].Type())
 	}
 	if isStructType(st.Elem()) {
-		g.unsup("append to slice of structs")
+		// slices of structs: only the shape is modelled (length, capacity, whether the array is reused); the
+		// appended elements' fields are left unconstrained (sound over-approximation, noted)
+		c.note("append to a slice of structs: element contents not modelled (lengths only)")
+		e := g.value(cc.Args[1])
+		slen := fmt.Sprintf("(s_len %s)", s.T)
+		scap := fmt.Sprintf("(s_cap %s)", s.T)
+		newLen := g.add64(slen, fmt.Sprintf("(s_len %s)", e.T))
+		newArr := g.newRef("append")
+		newCap := c.fresh("newcap", c.intSort(64))
+		c.assert(g.le64(newLen, newCap))
+		c.assert(g.le64(newCap, c.intLit64(1<<40, 64)))
+		result := ite(g.le64(newLen, scap),
+			fmt.Sprintf("(mk_slice (s_arr %s) (s_off %s) %s %s)", s.T, s.T, newLen, scap),
+			fmt.Sprintf("(mk_slice %s %s %s %s)", newArr, c.intLit64(0, 64), newLen, newCap))
+		// the struct elements live in field classes at interior references: an in-place append overwrites
+		// slots, a growing one copies - unknown here, so the field classes of the element type are havoced
+		var hv func(t types.Type, depth int)
+		hv = func(t types.Type, depth int) {
+			est, ename, ok := c.structOf(t)
+			if !ok || depth > 3 {
+				return
+			}
+			for i := 0; i < est.NumFields(); i++ {
+				f := est.Field(i)
+				switch {
+				case isStructType(f.Type()):
+					hv(f.Type(), depth+1)
+				case isArrayType(f.Type()):
+					cl := c.elemClass(f.Type().Underlying().(*types.Array).Elem())
+					g.cur.heap[cl] = c.fresh(cl+"@append", c.classes[cl])
+				default:
+					cl := c.fieldClass(ename, f)
+					g.cur.heap[cl] = c.fresh(cl+"@append", c.classes[cl])
+				}
+			}
+		}
+		hv(st.Elem(), 0)
+		if res == nil {
+			return nil
+		}
+		v := g.define(res, result)
+		return &v
 	}
 	e := g.value(cc.Args[1])
 	if isString(cc.Args[1].Type()) {
@@ -650,6 +692,23 @@ func (g *FuncGen) applyContract(ct *FuncContract, sig *types.Signature, args []V
 		g.ignoreStable = true
 		g.havocAll("call " + short)
 		g.ignoreStable = false
+		// ... and any ghost variable
+		var gnames []string
+		for gn := range g.prog.Ghosts {
+			gnames = append(gnames, gn)
+		}
+		sort.Strings(gnames)
+		for _, gn := range gnames {
+			// ... that the callee's contract speaks about (its ensures clauses or its own ghost updates);
+			// a callee whose contract never mentions a ghost variable cannot change it (ghost variables are
+			// only ever written by `ghost at call` statements of contracts)
+			if !contractMentionsGhost(g.prog, ct, gn) {
+				continue
+			}
+			if _, used := g.cur.ghost[gn]; used {
+				g.cur.ghost[gn] = c.fresh("ghost_"+gn+"@call", g.specSort(g.prog.Ghosts[gn].Type))
+			}
+		}
 	} else if !ct.AssignsNothing {
 		for _, a := range ct.Assigns {
 			g.havocLocation(env, a)
@@ -868,6 +927,60 @@ func (g *FuncGen) havocAll(why string) {
 	nh := c.fresh("hwm", SInt)
 	c.assert(fmt.Sprintf("(<= %s %s)", g.cur.hwm, nh))
 	g.cur.hwm = nh
+}
+
+// contractMentionsGhost: the ghost variable occurs in an ensures clause or is assigned by a ghost statement of ct.
+func contractMentionsGhost(prog *Program, ct *FuncContract, name string) bool {
+	isWord := func(s string, i, n int) bool {
+		before := i == 0 || !isIdentByte(s[i-1])
+		after := i+n >= len(s) || !isIdentByte(s[i+n])
+		return before && after
+	}
+	has := func(s string) bool {
+		for i := strings.Index(s, name); i >= 0; {
+			if isWord(s, i, len(name)) {
+				return true
+			}
+			j := strings.Index(s[i+1:], name)
+			if j < 0 {
+				break
+			}
+			i += 1 + j
+		}
+		return false
+	}
+	for _, e := range ct.Ensures {
+		if has(e.Text) || (e.E != nil && has(e.E.String())) {
+			return true
+		}
+		// ... or through a spec macro/function the clause uses (one or two levels)
+		if prog != nil {
+			txt := e.Text
+			for depth := 0; depth < 3; depth++ {
+				next := ""
+				for _, sf := range prog.SpecFuncs {
+					if sf.BodyTxt != "" && strings.Contains(txt, sf.Name+"(") {
+						if has(sf.BodyTxt) {
+							return true
+						}
+						next += " " + sf.BodyTxt
+					}
+				}
+				if next == "" {
+					break
+				}
+				txt = next
+			}
+		}
+	}
+	for _, ga := range ct.Ghosts {
+		for _, st := range ga.Stmts {
+			if st.Kind == "set" && st.Var == name {
+				return true
+			}
+		}
+	}
+	return false
 }
 
 // stableClasses: heap classes named by `option stable (*T).f, []E, ...` - fields (of every object of struct type
@@ -1190,7 +1303,28 @@ func (g *FuncGen) callWrites(cc *ssa.CallCommon) ([]string, bool) {
 		case "append":
 			st := cc.Args[0].Type().Underlying().(*types.Slice)
 			if isStructType(st.Elem()) {
-				return nil, true
+				// writes element structs: the field classes of the element type
+				var out []string
+				var add func(t types.Type, depth int)
+				add = func(t types.Type, depth int) {
+					est, ename, ok := c.structOf(t)
+					if !ok || depth > 3 {
+						return
+					}
+					for i := 0; i < est.NumFields(); i++ {
+						f := est.Field(i)
+						switch {
+						case isStructType(f.Type()):
+							add(f.Type(), depth+1)
+						case isArrayType(f.Type()):
+							out = append(out, c.elemClass(f.Type().Underlying().(*types.Array).Elem()))
+						default:
+							out = append(out, c.fieldClass(ename, f))
+						}
+					}
+				}
+				add(st.Elem(), 0)
+				return out, false
 			}
 			return []string{c.elemClass(st.Elem())}, false
 		case "delete", "clear":
